@@ -161,6 +161,7 @@ package keyvalue
 //@   ensures "aborted" iff(err != nil, old(cancelled(u.ctx)) || (ctx != nil && old(cancelled(ctx))))
 //@   ensures "results" implies(err == nil, len(rs) == u.nextOp && forall(i, 0, len(rs), rs[i] == u.results[i] && rs[i].Op == i))
 //@   ensures "ended" implies(err == nil, cancelled(u.ctx))
+//@   ensures "fresh" ref(rs) == 0 || fresh(rs)
 //@   nopanic
 
 //@ func (u *unsafeSerialTransaction) Abort() (err error)
@@ -997,25 +998,39 @@ package keyvalue
 //@   ensures "inv" fsInv(fs)
 //@   nopanic
 
-// ---- batched look-ups (mem world; the serial world of these loops is not under contract yet) ----
+// ---- batched look-ups ----
+// mem world: exact (each result is the map's entry). serial world (a plain Store): the world moves with every Get, so
+// the results are not named; what is stated is their shape (one result per path, in order; a result without error
+// carries a usable record) and that no failure of the transaction is dropped.
 //@ spec tsMem(store *transactionOnly) := store != nil && isType(store.store, *mem.store) && storeUnlocked(store.store)
+//@ spec tsIsMem(store *transactionOnly) := isType(store.store, *mem.store)
+//@ spec tsSer(store *transactionOnly) := store != nil && store.store != nil && !implements(store.store, TransactionStore)
 //@ spec tsRecs(store *transactionOnly) := memStoreOf(store.store).records
 //@ spec resFor(r OpResult, store *transactionOnly, p string) := ite(in(p, dom(tsRecs(store))), r.Record == tsRecs(store)[p] && r.Err == nil && r.Record != nil && mem.recOK(r.Record, memStoreOf(store.store), p),
 //@        r.Record == nil && r.Err == hackpadfs.ErrNotExist)
+//@ spec resUsable(r OpResult) := implies(r.Err == nil, r.Record != nil && srcOK(r.Record))
 //@ spec memTxn(txn Transaction) := txn.(*mem.transaction)
+//@ spec serTxn(txn Transaction) := txn.(*unsafeSerialTransaction)
 
 //@ func getFileRecords(store *transactionOnly, paths []string) (rs []OpResult, err error)
 //@   props C01 C03 C14
-//@   requires tsMem(store) && len(paths) < 1<<30
-//@   dispatch Transaction *mem.transaction
-//@   modifies held(memStoreOf(store.store).mu)
-//@   loop 1 invariant "gets" rangeindex >= -1 && rangeindex < max(len(paths), 1) && (len(paths) > 0 || rangeindex == -1) && isType(txn, *mem.transaction) && mem.txnInv(memTxn(txn)) &&
+//@   requires (tsMem(store) || tsSer(store)) && len(paths) < 1<<30
+//@   dispatch Transaction *mem.transaction *unsafeSerialTransaction
+//@   modifies held(memStoreOf(store.store).mu), world()
+//@   propagates [C14] Transaction
+//@   propagates [C14] Commit
+//@   loop 1 invariant "gets" rangeindex >= -1 && rangeindex < max(len(paths), 1) && (len(paths) > 0 || rangeindex == -1) && !failed("Transaction") && !failed("Commit") &&
+//@                      implies(tsIsMem(store), isType(txn, *mem.transaction) && mem.txnInv(memTxn(txn)) &&
 //@                      memTxn(txn).store == memStoreOf(store.store) && !memTxn(txn).released && !cancelled(memTxn(txn).ctx) && held(memStoreOf(store.store).mu) &&
 //@                      memTxn(txn).op == rangeindex + 1 && len(memTxn(txn).results) == rangeindex + 1 && (rangeindex == -1 || fresh(memTxn(txn).results)) &&
-//@                      forall(i, 0, rangeindex + 1, memTxn(txn).results[i].Op == i && resFor(memTxn(txn).results[i], store, paths[i]))
-//@   ensures "results" err == nil && len(rs) == len(paths) && forall(i, 0, len(paths), rs[i].Op == i && resFor(rs[i], store, paths[i]))
+//@                      forall(i, 0, rangeindex + 1, memTxn(txn).results[i].Op == i && resFor(memTxn(txn).results[i], store, paths[i])) && world() == old(world()))
+//@   loop 1 invariant "serial-gets" implies(!tsIsMem(store), tsSer(store) && isType(txn, *unsafeSerialTransaction) && serInv(serTxn(txn)) && fresh(serTxn(txn)) && fresh(serTxn(txn).results) &&
+//@                      serTxn(txn).store == store.store && serTxn(txn).nextOp == rangeindex + 1 && !cancelled(serTxn(txn).ctx) &&
+//@                      forall(i, 0, rangeindex + 1, serTxn(txn).results[i].Op == i && resUsable(serTxn(txn).results[i])))
+//@   ensures "results" implies(tsIsMem(store), err == nil && len(rs) == len(paths) && forall(i, 0, len(paths), rs[i].Op == i && resFor(rs[i], store, paths[i])) && world() == old(world()))
+//@   ensures "serial-results" [C14] implies(!tsIsMem(store) && err == nil, len(rs) == len(paths) && forall(i, 0, len(paths), rs[i].Op == i && resUsable(rs[i])))
 //@   ensures "fresh" ref(rs) == 0 || fresh(rs)
-//@   ensures "unlocked" tsMem(store)
+//@   ensures "unlocked" implies(tsIsMem(store), tsMem(store))
 //@   nopanic
 
 //@ spec fsMem(fs *FS) := fsInv(fs) && isMem(fs)
